@@ -325,6 +325,20 @@ def run_e2(sc):
                 if st1 not in OK_STATES:
                     v("connect-flag", "state", f"{a[1]}: status {st1.name} after a connect call")
                     return
+                # a component sees the exchanged metadata of one of its outputs only after EVERY consumer linked to
+                # that output has completed its own exchange (judged by the consumers' own public views)
+                ci_ = next(k for k, c in enumerate(comps) if c.name == a[1])
+                for oi_, o_ in enumerate(comps_spec[ci_]["outputs"]):
+                    if comp.connector.out_infos.get(o_["name"]) is None:
+                        continue
+                    for ln_ in sc["links"]:
+                        if ln_["src"] == [ci_, oi_]:
+                            cons = comps[ln_["dst"][0]]
+                            iname = comps_spec[ln_["dst"][0]]["inputs"][ln_["dst"][1]]["name"]
+                            if cons.connector is None or cons.connector.in_infos.get(iname) is None:
+                                v("connected-incomplete", "out-info-early", f"{a[1]} already sees the exchanged metadata of its "
+                                  f"output {o_['name']} although consumer {cons.name}.{iname} has not exchanged yet")
+                                return
                 if st0 == ComponentStatus.INITIALIZED:
                     return        # the ping call
                 if st1 == ComponentStatus.CONNECTED and not complete(view1):
